@@ -90,8 +90,12 @@ def register(reg):
             nm = out_rep._rec.fields.get('nullmask')
             clauses = [
                 ('same-number-of-elements', out_rep.length == rep.length),
-                ('outer-offsets-kept', forall('int', lambda k: Implies(And(k >= 0, k <= rep.length),
-                                                                       res_offs[0][k] == offs[0][rep.offset + k]))),
+                # pyarrow gives a missing slot an empty range ending at the next valid offset
+                ('offsets-of-present-elements-kept', forall('int', lambda k: Implies(
+                    And(k >= 0, k <= rep.length, Or(k == rep.length, Not(is_null(c.self, k)))),
+                    res_offs[0][k] == offs[0][rep.offset + k]))),
+                ('missing-elements-get-empty-ranges', forall('int', lambda k: Implies(
+                    And(k >= 0, k < rep.length, is_null(c.self, k)), res_offs[0][k] == res_offs[0][k + 1]))),
                 ('ring-offsets-kept', And(res_offs[-1].n == ro.n, forall('int', lambda k: Implies(
                     And(k >= 0, k < ro.n), res_offs[-1][k] == ro[k])))),
                 ('rings-kept', rings_kept(v, res_vals, ro, R, lambda k: needs_flip(v, po, ro, k))),
@@ -104,10 +108,16 @@ def register(reg):
                     And(k >= 0, k < offs[1].n), res_offs[1][k] == offs[1][k])))))
             if nm is not None and not isinstance(nm, SNone):
                 nmv = c.post.view(nm)
-                clauses.append(('missing-stays-missing', forall('int', lambda i: Implies(
-                    And(i >= 0, i < rep.length), nmv[i] == is_null(c.self, i)))))
+                res_null = lambda i: nmv[i]
+            elif nm is not None:
+                res_null = lambda i: SBool(False)        # from_arrays without a mask: no slot is null
             else:
-                clauses.append(('missing-stays-missing', SBool(False)))
+                # a real result (concrete replay): read its validity bitmap
+                class _R:
+                    listarray = out_rep
+                res_null = lambda i: is_null(_R, i)
+            clauses.append(('missing-stays-missing', forall('int', lambda i: Implies(
+                And(i >= 0, i < rep.length), res_null(i) == is_null(c.self, i)))))
             return clauses
 
         reg.add(Contract(target, lambda cfg: [('self', ListGeomArray(levels, cls='PolygonArray' if levels == 2 else 'MultiPolygonArray',
